@@ -22,10 +22,11 @@ macro_rules! marker {
         impl From<u32> for $n { fn from(v: u32) -> Self { Self(v) } }
     )*};
 }
-marker!(T1, T2, T3, T4);
+marker!(T1, T2, T3, T4, T5, T6, T7, T8, T9);
 
-pub const TYPE_NAMES: [&str; 4] = ["T1", "T2", "T3", "T4"];
+pub const TYPE_NAMES: [&str; 9] = ["T1", "T2", "T3", "T4", "T5", "T6", "T7", "T8", "T9"];
 
+#[macro_export]
 macro_rules! with_type {
     ($name:expr, $T:ident => $body:expr) => {
         match $name {
@@ -33,6 +34,11 @@ macro_rules! with_type {
             "T2" => { type $T = T2; $body }
             "T3" => { type $T = T3; $body }
             "T4" => { type $T = T4; $body }
+            "T5" => { type $T = T5; $body }
+            "T6" => { type $T = T6; $body }
+            "T7" => { type $T = T7; $body }
+            "T8" => { type $T = T8; $body }
+            "T9" => { type $T = T9; $body }
             other => panic!("unknown type {other}"),
         }
     };
@@ -53,7 +59,7 @@ pub fn err_kind(e: &StateError) -> &'static str {
     }
 }
 
-fn empty_map(ntypes: usize) -> Value {
+pub fn empty_map(ntypes: usize) -> Value {
     let mut m = Map::new();
     for t in &TYPE_NAMES[..ntypes] {
         m.insert(t.to_string(), json!(NOVAL));
@@ -94,7 +100,7 @@ pub fn project(reg: &Reg, ntypes: usize) -> Value {
     Value::Array(chain)
 }
 
-fn ancestor_mut(reg: &mut Reg, d: usize) -> &mut Reg {
+pub fn ancestor_mut(reg: &mut Reg, d: usize) -> &mut Reg {
     let mut cur = reg;
     for _ in 0..d {
         cur = cur.parent_mut().expect("ancestor exists");
@@ -102,7 +108,7 @@ fn ancestor_mut(reg: &mut Reg, d: usize) -> &mut Reg {
     cur
 }
 
-fn ancestor(reg: &Reg, d: usize) -> &Reg {
+pub fn ancestor(reg: &Reg, d: usize) -> &Reg {
     let mut cur = reg;
     for _ in 0..d {
         cur = cur.parent().expect("ancestor exists");
@@ -124,7 +130,7 @@ fn pres(x: Result<i64, String>, nt: usize) -> Value {
     }
 }
 
-fn read_form<T: Marker>(reg: &Reg, f: &str, nt: usize) -> Value {
+pub fn read_form<T: Marker>(reg: &Reg, f: &str, nt: usize) -> Value {
     match f {
         "try_get_value" => sres(reg.try_get_value::<T>(), |v| v as i64, nt),
         "try_borrow" => sres(reg.try_borrow::<T>(), |g| **g as i64, nt),
@@ -140,7 +146,7 @@ fn read_form<T: Marker>(reg: &Reg, f: &str, nt: usize) -> Value {
     }
 }
 
-fn write_form<T: Marker>(reg: &Reg, f: &str, v: u32, nt: usize) -> Value {
+pub fn write_form<T: Marker>(reg: &Reg, f: &str, v: u32, nt: usize) -> Value {
     match f {
         "try_borrow_mut" => sres(reg.try_borrow_mut::<T>(), |mut g| std::mem::replace(&mut **g, v) as i64, nt),
         "try_borrow_value_mut" => {
@@ -276,6 +282,31 @@ pub fn exec(reg: &mut Reg, a: &Value, nt: usize) -> Value {
     }
 }
 
+/// The calls that need only `&self` (usable while guards are alive).
+pub fn exec_shared(reg: &Reg, a: &Value, nt: usize) -> Option<Value> {
+    let op = a["op"].as_str().unwrap();
+    if !matches!(op, "contains" | "contains_at_top" | "read" | "write" | "set_value") {
+        return None;
+    }
+    let t = a["t"].as_str().unwrap();
+    let v = a["v"].as_i64().unwrap() as u32;
+    let d = a["d"].as_u64().unwrap() as usize;
+    let f = a["f"].as_str().unwrap();
+    Some(with_type!(t, T => {
+        match op {
+            "contains" => r("bool", ancestor(reg, d).contains::<T>() as i64, nt),
+            "contains_at_top" => r("bool", ancestor(reg, d).contains_at_top::<T>() as i64, nt),
+            "read" => read_form::<T>(ancestor(reg, d), f, nt),
+            "write" => write_form::<T>(ancestor(reg, d), f, v, nt),
+            "set_value" => match ancestor(reg, d).set_value::<T>(v) {
+                Some(old) => r("some", old as i64, nt),
+                None => r("none", NOVAL, nt),
+            },
+            _ => unreachable!(),
+        }
+    }))
+}
+
 pub fn depth(reg: &Reg) -> usize {
     let mut n = 1;
     let mut cur = reg;
@@ -286,22 +317,22 @@ pub fn depth(reg: &Reg) -> usize {
     n
 }
 
-fn act(op: &str, t: &str, v: i64, w: i64, d: usize, f: &str) -> Value {
+pub fn act(op: &str, t: &str, v: i64, w: i64, d: usize, f: &str) -> Value {
     json!({"op": op, "t": t, "v": v, "w": w, "d": d, "f": f})
 }
 
-const READ_FORMS: [&str; 10] = [
+pub const READ_FORMS: [&str; 10] = [
     "try_get_value", "try_borrow", "try_borrow_value", "try_borrow_mut", "try_borrow_value_mut",
     "get_value", "borrow", "borrow_value", "borrow_mut", "borrow_value_mut",
 ];
-const WRITE_FORMS: [&str; 4] = ["try_borrow_mut", "try_borrow_value_mut", "borrow_mut", "borrow_value_mut"];
-const ENTRY_FORMS: [&str; 12] = [
+pub const WRITE_FORMS: [&str; 4] = ["try_borrow_mut", "try_borrow_value_mut", "borrow_mut", "borrow_value_mut"];
+pub const ENTRY_FORMS: [&str; 12] = [
     "or_insert", "or_insert_with", "or_default", "and_modify", "and_modify_value", "and_modify_or_insert",
     "occ_get", "occ_get_mut", "occ_into_mut", "occ_insert", "occ_remove", "vac_insert",
 ];
 
 /// Random call, biased toward shadow / remove-underneath / entry-on-shadowed / pop.
-fn random_act(rng: &mut impl Rng, depth: usize, nt: usize, nvals: u32, maxdepth: usize) -> Value {
+pub fn random_act(rng: &mut impl Rng, depth: usize, nt: usize, nvals: u32, maxdepth: usize) -> Value {
     let t = TYPE_NAMES[rng.gen_range(0..nt)];
     let v = rng.gen_range(0..nvals) as i64;
     let w = rng.gen_range(0..nvals) as i64;
